@@ -155,7 +155,16 @@ PROPS.append(('C01', """(* C01 - a corpus document embedded verbatim in a file i
    both search sets are built from the same q and the same hash H, for EVERY
    hash function H (collisions included), every context A, B, every threshold
    thr <= 1.  The go-diff oracle is used through contract D2 only (the diff of
-   a sequence against itself is one Equal). *)""", IMP_V2 + "\nFrom LC.V2 Require Import Planted.", [
+   a sequence against itself is one Equal).  V2/PlantedText.v lifts the setting
+   from token lists to TEXT: the tokenizer is compositional at settled line
+   boundaries, so a copy of the document's text between other text has exactly
+   the document's words, on the document's lines shifted by the newlines before it. *)""", IMP_V2 + "\nFrom LC.V2 Require Import Planted TokSim TokInv PlantedText.", [
+ ('C01_text_level', 'C01_text_reported', 'V2/PlantedText.v',
+  'THE PROPERTY at the level of the file\'s text: pre ++ docu ++ post with pre and docu ending at settled line boundaries (newline-terminated lines none of which ends in a pending hyphen): the copy is reported with confidence 1.0, token span exactly the copy, lines = the lines of its first and last word, names of the document - under the isolation hypothesis of the token-level theorem and the diff contract'),
+ ('C01_tokenizer_compositional', 'tokenize_lines_app', 'V2/PlantedText.v',
+  'the tokenizer is compositional at a settled boundary: tokens, pseudo matches of a ++ b are those of a followed by those of b with lines shifted by the newlines of a'),
+ ('C01_settled_lines', 'settled_unlines', 'V2/PlantedText.v',
+  'a text made of newline-terminated lines none of which leaves a hyphen pending is settled (so the hypothesis is about how lines end, nothing else)'),
  ('C01_prefilter_never_rejects', 'prefilter_planted', 'V2/Planted.v', 'the token-frequency prefilter passes every document contained in the input, for every threshold <= 1'),
  ('C01_main_diagonal', 'main_diagonal', 'V2/Planted.v', 'the q-gram join yields exactly the range [0,|K|) -> [|A|,|A|+|K|) with |K| claimed tokens, whatever the hash'),
  ('C01_range_survives_fusion_and_cut', 'planted_potential_match', 'V2/Planted.v', 'density window, fusion and claimed-token cut keep that range with exactly these bounds'),
